@@ -80,7 +80,11 @@ def build(model, ranks=None, plain=False, default_resource_ids=False, share_id_o
 
     comps = []
     for cj in model.get("comps", []):
-        c_ = Component(name=cj.get("name", cj["id"]), ID=cj["id"], space_size=cj.get("size", 1.0))
+        ckw = {}
+        if model.get("comp_ctor_tasks"):
+            # the component is handed its tasks through the constructor (registered on the component side only)
+            ckw["targeted_task_list"] = [tasks[i] for i, tj in enumerate(model["tasks"]) if tj.get("comp") == len(comps)]
+        c_ = Component(name=cj.get("name", cj["id"]), ID=cj["id"], space_size=cj.get("size", 1.0), **ckw)
         if not plain and cj["id"] in ranks:
             c_._rank = ranks[cj["id"]]
         comps.append(c_)
@@ -88,7 +92,7 @@ def build(model, ranks=None, plain=False, default_resource_ids=False, share_id_o
         if cj.get("children"):
             comps[i].extend_child_component_list([comps[k] for k in cj["children"]])
     for i, tj in enumerate(model["tasks"]):
-        if tj.get("comp") is not None:
+        if tj.get("comp") is not None and not model.get("comp_ctor_tasks"):
             comps[tj["comp"]].append_targeted_task(tasks[i])
 
     teams = []
